@@ -12,6 +12,13 @@ Space (enumerated completely, nothing sampled):
   R  every E-text of a boundary value set with one character replaced by every alphabet letter (thorough: every
             printable ASCII character) at every position, to both readers;
   B  blank fields of width 0..20 x blank values, overflow asterisks of width 1..20, NaN / Infinity as Fortran prints them.
+  T  the readers as the file parsers use them: a boundary subset of the texts (and exact zeros, asterisks, blanks) in every
+     variable position of an initial-conditions file - each of the four columns of a full line and the LAST value of a
+     line of 1, 2, 3 values; six-variable blocks over two lines - and in the porosity / nseq / nadd fields, parsed by
+     fixed_format_file.parse_string (objects sharing one format table) and by t2incon(filename) (in a forked child, so
+     that 'first in the process' is first), with the plain and the Fortran read functions in BOTH orders
+     (plain, Fortran, plain) / (Fortran, plain, Fortran): every object must give what its own read function gives for
+     the cell text, whatever was opened before (order independence), and the Fortran cells obey the C16 oracle.
 Oracle: ref/c16ref.judge_real / judge_int (the property statement; large don't-care class for malformed text).
 """
 import contextlib
@@ -32,7 +39,8 @@ RULE = ('reals: every (sign, decimal exponent, mantissa length 1..17, digit patt
         'field padding, combined), F-style texts with 0..8 decimals; integers at every digit-count boundary 1..9 digits x every '
         'subset of gaps blanked; every string over the 18-letter alphabet up to the length bound; every one-character '
         'replacement of the boundary E-texts; blank fields and overflow fields of every width 0..20. A case is one text '
-        'handed to one reader; distinct = distinct (reader, text without its blank padding variants); non-trivial = the '
+        'handed to one reader; file route: each text in each variable position / as last value of a line of an incon file, '
+        'read by plain-reader and Fortran-reader objects in both orders within one process; distinct = distinct (reader, text without its blank padding variants); non-trivial = the '
         'statement fixes the result (value, NaN/None or blank value), i.e. not in the don\'t-care class')
 ASSUMPTIONS = ['only text (str) is handed to the readers; blank means the space character',
                'reference value of a text is ref/fortnum.parse_real / parse_int: blanks ignored (BN editing), exact decimal '
@@ -47,11 +55,13 @@ QUICK_EXP = [-300, -299, -200, -111, -110, -102, -101, -100, -99, -98, -38, -11,
              98, 99, 100, 101, 102, 110, 111, 200, 299, 300]
 SUBST_EXP = {'quick': [-300, -100, -99, 0, 99, 100, 300], 'thorough': [-300, -101, -100, -99, -10, -1, 0, 1, 10, 99, 100, 101, 300]}
 SUBST_LEN = {'quick': [1, 2, 17], 'thorough': [1, 2, 9, 16, 17]}
-BOUNDS = {'quick': {'E_exponents': 'boundary set of %d decimal exponents in -300..300' % len(QUICK_EXP),
+BOUNDS = {'quick': {'file_route': 'E-texts of exponents [-100, 0, 300] x lengths [1, 7] that fit the field + zeros/asterisks/ints; 2 orders',
+                    'E_exponents': 'boundary set of %d decimal exponents in -300..300' % len(QUICK_EXP),
                     'E_blank_placements': 'every single gap + padding + combined',
                     'strings': 'all of length <= 4 over 18 letters',
                     'replacement_letters': '18-letter alphabet', 'replacement_base': 'exponents %r x lengths %r' % (SUBST_EXP['quick'], SUBST_LEN['quick'])},
-          'thorough': {'E_exponents': 'all 601 decimal exponents -300..300',
+          'thorough': {'file_route': 'E-texts of 9 boundary exponents x lengths [1, 7] that fit the field + zeros/asterisks/ints; 2 orders',
+                       'E_exponents': 'all 601 decimal exponents -300..300',
                        'E_blank_placements': 'every single gap + padding + combined',
                        'strings': 'all of length <= 5 over 18 letters',
                        'replacement_letters': '95 printable ASCII characters',
